@@ -8,8 +8,8 @@ import sys
 from .common import ENV, HARNESS, ROOT, SPEC, ToolError, build_harness, hbin, sh, tlc_cached
 
 MODELS = {
-    "quick": [("all3", "Agg_all3.cfg"), ("core4", "Agg_core4.cfg"), ("uses4", "Agg_uses4.cfg"), ("build4", "Agg_build4.cfg"), ("shape4", "Agg_shape4.cfg"), ("world3", "Agg_world3.cfg")],
-    "thorough": [("all3", "Agg_all3.cfg"), ("core4", "Agg_core4.cfg"), ("uses4", "Agg_uses4.cfg"), ("build4", "Agg_build4.cfg"), ("shape4", "Agg_shape4.cfg"), ("world3", "Agg_world3.cfg"), ("core5", "Agg_core5.cfg")],
+    "quick": [("all3", "Agg_all3.cfg"), ("core4", "Agg_core4.cfg"), ("uses4", "Agg_uses4.cfg"), ("build4", "Agg_build4.cfg"), ("shape4", "Agg_shape4.cfg"), ("world3", "Agg_world3.cfg"), ("more3", "Agg_more3.cfg")],
+    "thorough": [("all3", "Agg_all3.cfg"), ("core4", "Agg_core4.cfg"), ("uses4", "Agg_uses4.cfg"), ("build4", "Agg_build4.cfg"), ("shape4", "Agg_shape4.cfg"), ("world3", "Agg_world3.cfg"), ("more3", "Agg_more4.cfg"), ("core5", "Agg_core5.cfg")],
 }
 
 
